@@ -87,6 +87,9 @@ def main(d):
     if rc == 3:
         log("this artefact has no executable template (see case.json)")
         return 2
+    if kind == "abort" and rc == 0:
+        log("the simplified sweep of the aborting phase terminates normally on the current tree")
+        return 0
     if rc != 0:
         print("VIOLATION property=%s replay=%s" % (prop, d))
         return 1
